@@ -18,10 +18,10 @@ CHECKS = {
    note="Trusted: the reference aggregator; float tolerance 1e-3; the schedule dimension is thin (batch boundaries and restarts), most of the power is the reference model; torn/failed state-file writes are not injected.",
    technique="deterministic simulation: seeded batch-split and restart histories (only durable state survives) against a reference aggregator and the single-batch run"),
  "C18": dict(
-   text="Two monitors over the real engine inside the simulator. (i) Data races: the harness is built with -race and the Go race detector is the invariant monitor; 2-5 goroutines drive overlapping transactions through shared flows and quotas of the real HandlingDataManager together with a metrics read, a proxy-error report and a PUT /configuration reload, and, in policy mode, transaction lookups with policy swaps, a fail-safe revert and the vacuum goroutines; interleavings come from fake-time delays at every instrumented lock site, a pure function of seed and call site (the token scheduler is not used here: its hand-off would add happens-before edges and hide races). Every report with an engine frame is a violation, identified by its pair of top engine frames. (ii) Serial equivalence: 2-3 transactions overlap under the token scheduler with the clock frozen; their outcome vector must equal that of one of the N! serial orders on fresh engines. Sampling, not proof.",
+   text="Two monitors over the real engine inside the simulator. (i) Data races: the harness is built with -race and the Go race detector is the invariant monitor; 2-5 goroutines drive overlapping transactions through shared flows and quotas of the real HandlingDataManager together with a metrics read, a proxy-error report and a PUT /configuration reload, and, in policy mode, transaction lookups with policy swaps, a fail-safe revert and the vacuum goroutines; interleavings come from fake-time delays at every instrumented lock site, a pure function of seed and call site (the token scheduler is not used here: its hand-off would add happens-before edges and hide races). Every report with an engine frame is a violation, identified by its pair of top engine frames. (ii) Serial equivalence: 2-3 transactions overlap under the token scheduler with the clock frozen; their outcome vector must equal that of one of the N! serial orders on fresh engines (half of the runs through the SPOE message handler, a third with simulated blocking). (iii) Policy mode under the race detector (C18P): SPOE frames through the message handler with the real remedy plugins, two diagnoses and an optional reload. (iv) The vacuum's entry list under interleaving (C18V: every registered key leaves the map) and the concurrency limiter with its vacuum under simulated blocking (C18L: no deadlock, every operation returns). Sampling, not proof.",
    design_ref="DESIGN.md section 4 C18",
    note="Trusted: the Go race detector (happens-before, so reports do not depend on physical overlap); GORACE halt_on_error=0 so that one run yields all its reports; the implementation as its own sequential specification for (ii); one open known finding (per-flow transactional context written by every transaction) is listed in known-findings.json and printed as KNOWN-FINDING.",
-   technique="deterministic simulation with the race detector as invariant monitor (stateless seeded delays at lock sites) plus schedule exploration against all serial orders"),
+   technique="deterministic simulation with the race detector as invariant monitor (stateless seeded delays at lock sites) plus schedule exploration against all serial orders, with simulated lock blocking and deadlock detection"),
  "C05": dict(
    text="Seeded deterministic simulation with one OS process per generated configuration, so that a fatal error of the engine (stack overflow, panic) is an observable outcome: arbitrary small flow graphs (a well-formed skeleton plus extra connections incl. self-loops, back edges, cycles under one condition and in root-less response directions, undeclared names, bogus conditions, textual YAML damage) and quota files with the usual mistakes go through the gateway's own dry-run validation; accepted ones are loaded for real under both load orders and driven with 10 transactions (random steering, malformed and large bodies, odd paths). R1 validation returns, R2 accepted => real load succeeds, R3 accepted => every transaction side finishes within 1000 processor executions without panic or process death. Sampling of the configuration space, not enumeration.",
    design_ref="DESIGN.md section 4 C05",
@@ -69,10 +69,10 @@ CHECKS = {
    note="Trusted: synctest fake clock; grid window of t is floor(t/W); share = ceil(allowed*pct/100) in exact integer arithmetic; no window-size changes.",
    technique="deterministic simulation: seeded boundary-instant histories and lock-site interleaved bursts against a reference per-window counter"),
  "C06": dict(
-   text="Seeded deterministic simulation of the real streams engine with a Queue processor on a fixed-window quota: the 100 ms processing loop, the TTL watcher and the removal goroutines are the engine's own and run on the fake clock. Arrivals with priorities, clock targets on/next to processing ticks, window ends and TTL expiries, stalls of request goroutines at instrumented lock sites, context cancel at a random step. Oracles: R1 exactly one verdict within TTL + 1 s once stalls stop, R2 grants per quota window <= max, R3 priority then FIFO order at every grant (engine push timestamps), R4 waiters <= queue_size at quiescent points, R5 shutdown releases waiters and the process survives (a crash of the child is a violation). Sampling, not proof.",
+   text="Seeded deterministic simulation of the real streams engine with a Queue processor on a fixed-window quota: the 100 ms processing loop, the TTL watcher and the removal goroutines are the engine's own and run on the fake clock. Arrivals with priorities, clock targets on/next to processing ticks, window ends and TTL expiries, stalls of request goroutines at instrumented lock sites, context cancel at a random step. Oracles: R1 exactly one verdict within TTL + 1 s once stalls stop, R2 grants per quota window <= max, R3 priority then FIFO order at every grant (engine push timestamps), R4 waiters <= queue_size at quiescent points, R5 shutdown releases waiters and the process survives (a crash of the child is a violation). Scenario C06L runs the same processor with simulated blocking (locks taken through the simulator, tasks parked inside critical sections, a waiting writer shuts out readers): once faults stop every request has its verdict, and a state in which every live task waits for a lock is a deadlock. Sampling, not proof.",
    design_ref="DESIGN.md section 4 C06",
    note="Trusted: synctest fake clock; verifhook decision events; TimerSlack (+1 ms on the watcher's zero wait under the verif tag); slack 1 s; requests entering the queue after the drain are outside the property; Go's select/map-iteration randomness is not controlled (oracles are insensitive to it).",
-   technique="deterministic simulation: seeded arrival/clock/stall/shutdown schedules over the real queue goroutines with history oracles; child-process crash detection"),
+   technique="deterministic simulation: seeded arrival/clock/stall/shutdown schedules over the real queue goroutines with history oracles; simulated lock blocking with deadlock detection; child-process crash detection"),
  "C02": dict(
    text="Seeded deterministic simulation of the real streams engine with a concurrency quota (optional parent quota, optional second flow answering early after admission), its GC goroutine on the fake clock and a fake cluster liveness. Histories of request / response / proxy-error / abandon / duplicate-end / instance-left events with clock targets around expiry and expiry+GC, single or in concurrent groups interleaved at instrumented lock sites. Oracles: R1 certain holders <= max at every admission (sequence-number based), R2 capacity probes at quiescent points bound free slots from both sides (leak / double release), R3 full capacity after everything ended or expired. Sampling, not proof.",
    design_ref="DESIGN.md section 4 C02",
